@@ -65,6 +65,7 @@ def run(prog, ctx):
     ctx.floor("C01.D1", n_own, 8, "stores of CombiScheme state inside CombiScheme")
     if not bad:
         ctx.ok("C01.D1", "package::no-outside-writer", "sparseSpACE/*", "index sets, lmin, lmax_adaptive, initialized_adaptive are written only by CombiScheme methods")
+    check_initialisation(prog, ctx, cs, "C01.D1")
     # getter escape: get_active_indices returns the internal set
     getter_users = 0
     for fi in prog.functions.values():
@@ -393,6 +394,58 @@ def _check_simplex_enumeration(prog, ctx, cs):
 def norm_eq(a, b):
     from ..terms import norm_cmp
     return norm_cmp("Eq", a, b)
+
+
+def check_initialisation(prog, ctx, cs, rule):
+    """(a) An initialiser (re-)establishes the whole state on every path: every STATE attribute is stored on every normal path from
+    entry to exit, so that a second initialisation never leaves index sets of an earlier history in place.
+    (b) The scheme object that a combination instance keeps (`self.combischeme`) is put into the adaptive state only by the set-up of
+    an adaptive driver (initialize_refinement / perform_combi); every other caller initialises a CombiScheme it created itself."""
+    for nm in ("init_adaptive_combi_scheme", "init_full_grid"):
+        fi = cs.methods.get(nm)
+        if fi is None:
+            raise AnalysisError("anchor vanished: CombiScheme.%s" % nm)
+        ctx.touch(fi)
+        c = cfg_of(fi)
+        missing = []
+        for attr in sorted(STATE):
+            stores = [c.node_of(s_.stmt) for s_ in R.self_stores(fi, attr) if s_.kind == "plain"]
+            if not stores or not c.must_pass_through(c.entry, [c.exit], stores):
+                missing.append(attr)
+        ctx.check(not missing, rule, R.key_of(fi, "complete-initialisation"), fi.loc(),
+                  "every state attribute is (re-)assigned on every normal path",
+                  "%s can return without (re-)assigning %s: a second initialisation keeps the index sets / levels of the earlier history"
+                  % (nm, missing))
+    drivers = ("initialize_refinement", "perform_combi")
+    n = 0
+    for fi in prog.functions.values():
+        if "init_adaptive_combi_scheme" not in fi.module.source and "init_full_grid" not in fi.module.source:
+            continue
+        for call in R.calls_in(fi.node):
+            if not (isinstance(call.func, ast.Attribute) and call.func.attr in ("init_adaptive_combi_scheme", "init_full_grid")):
+                continue
+            recv = call.func.value
+            n += 1
+            ctx.touch(fi)
+            ok = False
+            why = ""
+            if isinstance(recv, ast.Name):
+                rd_ = R.reaching_unique_def(fi, recv.id, recv)
+                defs = [rd_] if rd_ is not None else []          # the definition that reaches THIS call (flow-sensitive)
+                fresh = bool(defs) and all(b.kind == "assign" and isinstance(b.value, ast.Call) and
+                                           prog.resolve_class_expr(fi.module.name, b.value.func, fi.cls) is not None and
+                                           prog.resolve_class_expr(fi.module.name, b.value.func, fi.cls).qual == cs.qual for b in defs)
+                ok = fresh
+                why = "`%s` is not on every path a CombiScheme created in this function (definitions: %s)" % (recv.id, [src(b.value)[:40] if b.value is not None else b.kind for b in defs])
+            elif R.attr_chain(recv) and R.attr_chain(recv)[0] == fi.self_name:
+                ok = fi.name in drivers or (fi.cls is not None and fi.cls.qual == cs.qual)
+                why = "%s initialises the scheme object kept by the instance (`%s`) although it is not the set-up of an adaptive driver %s: " \
+                      "the instance's scheme silently switches to the adaptive state" % (fi.name, src(recv), list(drivers))
+            else:
+                why = "unrecognised receiver `%s`" % src(recv)
+            ctx.check(ok, rule, R.key_of(fi, "initialiser-call:%s" % src(recv)), fi.loc(call),
+                      "an initialiser is applied to a fresh local scheme, or to the instance's scheme by an adaptive driver's set-up", why)
+    ctx.floor(rule + ".calls", n, 3, "call sites of the CombiScheme initialisers")
 
 
 def _reached_in_state(cs, name, seen):
